@@ -30,6 +30,47 @@ import builders_tree as txbuild
 import rootcover as txroot
 
 TOL = 1e-9
+SIZE1 = [False]     # set by the probe below: may the generators use one-function (nbas == 1) real basis sets?
+PROBE_SIZE1 = r"""
+import sys, numpy as np
+from renormalizer import Op, BasisHalfSpin, BasisSHO
+from renormalizer.tn import BasisTree, TTNO, TTNS
+bad = []
+obs = []      # state-side observations outside C02's observable (reported, not enforced here)
+for nm, bs in [("one size-1 set", [BasisHalfSpin("s"), BasisSHO("v", omega=1.0, nbas=1)]),
+               ("only size-1 sets", [BasisSHO("u", omega=2.0, nbas=1), BasisSHO("v", omega=1.0, nbas=1)])]:
+    # a frozen mode: one basis function.  to_contract_args squeezes the size-1 axis; todense must not request it
+    if len(bs[0].sigmaqn) == 2:
+        terms = [Op("sigma_z", "s", 1.0), Op("sigma_x x^2", ["s", "v"], 0.25)]
+        ref = np.kron(np.diag([1.0, -1.0]), np.eye(1)) + 0.25 * np.kron(np.array([[0, 1.0], [1.0, 0]]), np.asarray(bs[1].op_mat("x^2")))
+    else:
+        terms = [Op("x^2 x^2", ["u", "v"], 3.0)]
+        ref = 3.0 * np.kron(np.asarray(bs[0].op_mat("x^2")), np.asarray(bs[1].op_mat("x^2")))
+    for tname, tree in [("linear", BasisTree.linear(bs)), ("binary", BasisTree.binary(bs))]:
+        try:
+            ttno = TTNO(tree, terms)
+            d = np.asarray(ttno.todense(bs)).reshape(ref.shape)
+            if not np.abs(d - ref).max() <= 1e-12 * np.abs(ref).max():
+                bad.append((nm, tname, "TTNO.todense differs", float(np.abs(d - ref).max())))
+        except Exception as e:
+            bad.append((nm, tname, "TTNO.todense raised %s: %s" % (type(e).__name__, e)))
+        try:                                    # the state side (same index bookkeeping)
+            ttns = TTNS.random(tree, 0, 2)
+            v = np.asarray(ttns.todense(bs)).reshape(-1)
+            if v.size != ref.shape[0]:
+                bad.append((nm, tname, "TTNS.todense has the wrong size", int(v.size)))
+            else:
+                w = np.asarray(ttno.apply(ttns).todense(bs)).reshape(-1)
+                if not np.abs(w - ref @ v).max() <= 1e-10 * max(np.abs(ref @ v).max(), 1e-300):
+                    bad.append((nm, tname, "TTNO.apply(TTNS).todense differs from dense @ vector", float(np.abs(w - ref @ v).max())))
+        except Exception as e:
+            # a Hilbert space of dimension ONE contracts to a 0-d scalar; TTNS.todense then fails `asnumpy`'s assert (C11's observable)
+            (obs if nm == "only size-1 sets" else bad).append((nm, tname, "TTNS.todense / apply raised %s: %s" % (type(e).__name__, e)))
+if obs:
+    print("OBSERVATION", obs[:4])
+print("size-1 basis sets:", bad[:6] if bad else "ok")
+sys.exit(1 if bad else 0)
+"""
 COQ_HDR = ("From Coq Require Import ZArith List Arith.\nImport ListNotations.\n"
            "From RV Require Import Base.CRing Gen.Partition Model.TreeTopo Gen.TreeBuilders Model.Ttno.\n")
 
@@ -165,7 +206,8 @@ def gen_tree(rng, max_real):
             return ["el", d, 2]
         if r < 0.7:
             return ["spin", d, 2]
-        return ["sho", d, rng.choice([2, 3]), rng.choice([0.5, 1.0, 1.0, 2.0, 0.25]), rng.choice([0.0, 0.0, 0.0, 0.5, -1.0])]
+        nb = 1 if (SIZE1[0] and rng.random() < 0.08) else rng.choice([2, 3])
+        return ["sho", d, nb, rng.choice([0.5, 1.0, 1.0, 2.0, 0.25]), rng.choice([0.0, 0.0, 0.0, 0.5, -1.0])]
 
     nodes = []
     for i in range(n):
@@ -217,15 +259,17 @@ def reals_of(node):
     return out
 
 
-def gen_terms(rng, reals, nmax):
+def gen_terms(rng, reals, nmax, wide=False):
     def sym_for(spec):
         return rng.choice({"spin": SPIN_SYMS, "sho": SHO_SYMS, "el": EL_SYMS}[spec[0]])
 
     def fac():
+        if wide:      # O(1) fields next to couplings of 1e-9 .. 1e-7: far inside the code's relative 1e-15 pruning window,
+            return {"num": rng.choice([1, 3, 5, -1, -3]), "exp": rng.choice([0, 0, 1, 2, 24, 26, 28, 30])}   # above the qr path's absolute 1e-10
         return {"num": rng.choice([1, 1, 1, 3, 5, -1, -1, -3]), "exp": rng.choice([-10, -3, -2, -1, 0, 0, 0, 1, 1, 2, 3, 6])}
 
     terms = []
-    n = rng.randint(1, nmax)
+    n = rng.randint(2 if wide else 1, max(2, nmax))
     while len(terms) < n:
         r = rng.random()
         if terms and r < 0.15:
@@ -363,6 +407,20 @@ def run(ctx):
     def bump(k, n=1):
         dist[k] = dist.get(k, 0) + n
 
+    # ---- 0. probe: TTNO.todense / TTNS.todense / apply with one-function real basis sets (defect repaired in /repo c6996f2).
+    #         If it fails: violation `todense-size1-basis` with a replay, and the generators avoid nbas == 1 so that the
+    #         other streams stay informative; otherwise such basis sets are part of every stream.
+    rcp, outp = common.sh([common.IMPL_PY, "-c", PROBE_SIZE1], env=common.impl_env(), cwd="/", timeout=120)
+    SIZE1[0] = (rcp == 0)
+    for line in outp.splitlines():
+        if line.startswith("OBSERVATION"):
+            ctx.notes.append("ttns-todense-dimension-one (C11's observable, not enforced by C02): " + line[12:400])
+    if rcp != 0:
+        # repaired in /repo c6996f2 (`fixed:` entry of C02): a failure now is a regression, reported with a replay
+        ctx.notes.append("todense-size1-basis: %s; generators avoid nbas == 1" % (outp.strip().splitlines()[-1][:300] if outp.strip() else "probe failed"))
+        ctx.violation("todense-size1-basis", "dense oracle (observe_at TTNO.todense): a tree with a non-dummy basis set of one function cannot be densified / is densified wrongly (size-1 physical axis squeezed in to_contract_args but still requested as output index)",
+                      {"probe_output": outp[-1500:]}, found=True, repro=PROBE_SIZE1)
+    bump("probe:size-1 basis sets " + ("enabled" if SIZE1[0] else "avoided (todense raises)"))
     # ---- 1. translator
     tx_ok = True
     try:
@@ -485,8 +543,9 @@ def run(ctx):
             case = {"tree": None, "builder": bd, "basis": reals}
             bump("tree:" + name)
         conserving = any(b[0] == "el" for b in reals) and rng.random() < 0.7
+        case["wide"] = (not conserving) and rng.random() < 0.2
         for _ in range(50):
-            case["terms"] = (gen_terms_conserving if conserving else gen_terms)(rng, reals, 10 if quick else 24)
+            case["terms"] = gen_terms_conserving(rng, reals, 10 if quick else 24) if conserving else gen_terms(rng, reals, 10 if quick else 24, wide=case["wide"])
             if term_coeffs(case["terms"]):                    # the zero operator goes to the malformed stream
                 break
         case["qr_sym"] = rng.random() < 0.35
@@ -548,13 +607,24 @@ def run(ctx):
     nseq = 10 if quick else 80
     seqs = [gen_history(rng, i) for i in range(nseq)]
     nhp = 2 if quick else 8
-    hres = impl_pool(ctx, "c02_history.py", [{"sequences": seqs[i::nhp]} for i in range(nhp)], timeout=900)
+    scales = []
+    for i in range(24 if quick else 200):
+        st0 = rng.choice(gen_history(rng, 0)["steps"])
+        scales.append({"id": i, "basis": st0["basis"], "tree": st0["tree"], "terms": st0["terms"],
+                       "algo": rng.choice(["Hopcroft-Karp", "Hungarian"]), "k": rng.choice([1, 7, 20, 27, 30, 34, 40, 53, 64, 70])})
+    hres = impl_pool(ctx, "c02_history.py", [{"sequences": seqs[i::nhp], "scales": scales[i::nhp]} for i in range(nhp)], timeout=900)
+    scale_bad = []
     history_bad = []
     seq_by_id = {q["id"]: q for q in seqs}
     for (rc_, res_, out_), chunk in zip(hres, [seqs[i::nhp] for i in range(nhp)]):
         if res_ is None:
             history_bad.append({"what": "history script failed", "out": (out_ or "")[-1500:], "process": [q["id"] for q in chunk]})
             continue
+        for q in res_.get("scales", []):
+            ev += q["n"]
+            bump("scale:twins")
+            if q["fails"]:
+                scale_bad.append({"what": "scale covariance", "case": scales[q["id"]], "fails": q["fails"][:4]})
         for q in res_["sequences"]:
             ev += q["n"]
             bump("history:sequences")
@@ -590,9 +660,16 @@ def run(ctx):
         d = r.get("dense")
         if d:
             ev += 1
-            worst = max(v for k, v in d.items() if k != "dim")
-            if not worst <= TOL:
-                oracle_bad.append({"what": "dense operators differ", "errors": d, "case": case})
+            qr_keys = ("ttno_qr_vs_sum",) if case.get("wide") else ("ttno_qr_vs_sum", "mpo_vs_sum", "ttno_vs_mpo", "linear_ttno_vs_mpo")
+            worst = max(v for k, v in d.items() if k != "dim" and not k.endswith("_rel_smallest") and k not in qr_keys)
+            worst_qr = max([v for k, v in d.items() if k in qr_keys] + [0.0])     # the default Mpo and algo="qr" drop entries below 1e-10 by design
+            small = max([v for k, v in d.items() if k.endswith("_rel_smallest")] + [0.0])
+            if case.get("wide"):
+                bump("dense:wide dynamic range")
+            if not worst <= TOL or not worst_qr <= 1e-8:
+                oracle_bad.append({"what": "dense operators differ (relative to the operator's own scale; 1e-9 for the graph algorithms, 1e-8 where a qr construction is involved)", "errors": d, "case": case})
+            elif not small <= 1e-3:
+                oracle_bad.append({"what": "dense operators differ by more than 1e-3 of the SMALLEST coefficient (a weak term is lost or distorted)", "errors": d, "case": case})
         # term list -> coefficient function, compared with the table and the composed symbolic tensors
         tc = term_coeffs(case["terms"])
         prim = r["prim_str"]
@@ -611,7 +688,9 @@ def run(ctx):
             if c is None or Fraction(c[0], c[1]) != want:
                 corr_bad.append({"what": "composed symbolic TTNO: coefficient differs from the term list", "string": s, "impl": c, "want": str(want), "case": case})
                 break
-        if ok_build:
+        if any(st.get("witness") is None for st in r.get("steps", [])):
+            corr_bad.append({"what": "a node was decomposed without calling bipartite_vertex_cover: no witness logged (the model's graph step does not describe this code path)", "case": case})
+        elif ok_build:
             coq_items.append((case, r))
     # ---- model recomputation in Coq
     if ok_build and coq_items:
@@ -740,10 +819,17 @@ def run(ctx):
                "sys.exit(1 if bad else 0)\n")
         ctx.violation("ttno-history", "dense oracle (history stream): a TTNO built after other constructions in the same process differs from the dense sum of krons of its own local matrices",
                       {"failures": [{k: v for k, v in b.items()} for b in history_bad[:4]]}, found=True, repro=rep)
+    if scale_bad:
+        src = open(os.path.join(common.VERIF, "harness", "impl", "c02_history.py")).read()
+        rep = ("C02_INLINE = True\n" + src + "\nres = run_payload(json.loads(" + repr(json.dumps({"scales": [scale_bad[0]["case"]]})) + "))\n"
+               "bad = [f for q in res['scales'] for f in q['fails']]\nprint(bad[:4])\nsys.exit(1 if bad else 0)\n")
+        ctx.violation("ttno-scale", "dense oracle (scale stream): the TTNO of a term list times 2**-k is not the scaled TTNO of the list (graph algorithms); errors relative to the operator's own scale",
+                      {"failures": scale_bad[:4]}, found=True, repro=rep)
     if oracle_bad:
         c = oracle_bad[0]["case"]
         ctx.violation("ttno-dense", "dense oracle: TTNO differs from the dense sum / chain MPO" + ("; also broken: " + "; ".join(broken) if broken else ""),
                       {"failures": [{k: v for k, v in b.items() if k != "case"} for b in oracle_bad[:5]], "first_case": c,
+                       "failing_cases": [{k: v for k, v in b["case"].items() if k != "reals"} for b in oracle_bad[:4]],
                        "correspondence": [{k: v for k, v in b.items() if k != "case"} for b in corr_bad[:5]]},
                       found=True, repro=repro_snippet(history_of(c)))
     if (broken or corr_bad) and not oracle_bad:
@@ -791,30 +877,43 @@ def run(case):
         tree = {"linear": lambda: BasisTree.linear(real), "binary": lambda: BasisTree.binary(real), "t3ns": lambda: BasisTree.t3ns(real),
                 "mctdh": lambda: BasisTree.general_mctdh(real, bd.get("order", 2), contract_primitive=bd.get("contract", False), contract_label=bd.get("label"))}[bd["name"]]()
     terms = [Op(" ".join(s for s, d in t["ops"]), [d for s, d in t["ops"]], t["num"] / 2.0 ** t["exp"]) for t in case["terms"]]
-    ref = 0
+    from fractions import Fraction
+    acc = {}                                        # identical products merged exactly: no cancellation error in the reference
     for t in case["terms"]:
+        per = {}
+        for s, d in t["ops"]:
+            per.setdefault(d, []).append(s)
+        key = tuple(sorted((str(d), d, " ".join(ss)) for d, ss in per.items()))
+        acc[key] = acc.get(key, Fraction(0)) + Fraction(t["num"]) * Fraction(2) ** (-t["exp"])
+    ref = 0
+    for key, c in acc.items():
+        per = {d: sym for _, d, sym in key}
         full = np.eye(1)
         for b in real:
-            syms = [s for s, d in t["ops"] if d == b.dof]
-            full = np.kron(full, np.asarray(b.op_mat(" ".join(syms))) if syms else np.eye(b.nbas))
-        ref = ref + (t["num"] / 2.0 ** t["exp"]) * full
+            full = np.kron(full, np.asarray(b.op_mat(per[b.dof])) if b.dof in per else np.eye(b.nbas))
+        ref = ref + float(c) * full
     dense = TTNO(tree, terms, algo=case.get("algo", "Hopcroft-Karp")).todense(real)
-    mpo = Mpo(Model(real, terms)).todense()
-    scale = max(1.0, np.abs(ref).max())
-    return np.abs(dense - ref).max() / scale, np.abs(dense - mpo).max() / scale
+    wide = bool(case.get("wide"))
+    mpo = Mpo(Model(real, terms), algo="Hopcroft-Karp").todense()     # graph algorithm: the default qr drops entries below 1e-10
+    scale = np.abs(ref).max()                      # the operator's own scale, never an absolute floor
+    e1, e2 = np.abs(dense - ref).max() / scale, np.abs(dense - mpo).max() / scale
+    e3 = 0.0
+    if wide:                                       # weak couplings next to strong fields: relative to the smallest coefficient
+        e3 = np.abs(dense - ref).max() / min(abs(t["num"] / 2.0 ** t["exp"]) for t in case["terms"])
+    return e1, e2, e3
 bad = 0
 for i, case in enumerate(cases):
-    e1, e2 = run(case)
-    if not (e1 <= 1e-9 and e2 <= 1e-9):
+    e1, e2, e3 = run(case)
+    if not (e1 <= 1e-9 and e2 <= 1e-9 and e3 <= 1e-3):
         bad += 1
-        print("construction", i, ": TTNO vs sum of krons:", e1, " TTNO vs chain MPO:", e2)
+        print("construction", i, ": TTNO vs sum of krons:", e1, " TTNO vs chain MPO:", e2, " error / smallest coefficient:", e3)
 print(len(cases), "constructions,", bad, "differ")
 sys.exit(1 if bad else 0)
 """
 
 
 def repro_snippet(cases):
-    keep = ("tree", "builder", "basis", "terms", "algo")
+    keep = ("tree", "builder", "basis", "terms", "algo", "wide")
     return REPRO_TMPL % (json.dumps([{k: v for k, v in c.items() if k in keep} for c in cases]),)
 
 
